@@ -70,6 +70,15 @@ func (r *Report) Rule(name, doc string) *Rule {
 
 func (ru *Rule) add(st Status, construct string, pos token.Pos, format string, a ...any) {
 	ru.n++
+	if Discharged != st {
+		/* One finding per rule+construct: further paths reaching the same
+		construct add nothing a reader can act on. */
+		for _, o := range ru.r.Obs {
+			if o.Rule == ru.name && o.Construct == construct && Discharged != o.Status {
+				return
+			}
+		}
+	}
 	ps := "-"
 	if nil != ru.r.P {
 		ps = ru.r.P.Pos(pos)
